@@ -255,6 +255,10 @@ func Check(c Case) (v vcase.Verdict) {
 				}
 				terms = append(terms, strconv.Quote(k)+":"+strconv.Quote(val))
 			}
+			if c.Sep%3 != 0 {
+				// a per-measurement term in front: it holds for the one measurement there is
+				terms = append([]string{".unit:u"}, terms...)
+			}
 			return strings.Join(terms, sep)
 		}
 		for _, alter := range []int{-1, len(ks) - 1, 0, len(ks) / 2} {
@@ -559,13 +563,16 @@ func genName(t *rapid.T) string {
 			sb.WriteString("/" + keyw.Draw(t, "k2") + "=" + word.Draw(t, "v2") + "=" + word.Draw(t, "v3"))
 		}
 	}
-	switch rapid.IntRange(0, 5).Draw(t, "tail") {
+	switch rapid.IntRange(0, 6).Draw(t, "tail") {
 	case 0, 1:
 		sb.WriteString("-" + strconv.Itoa(rapid.IntRange(0, 128).Draw(t, "procs")))
 	case 2:
 		sb.WriteString("-")
 	case 3:
 		sb.WriteString(rapid.StringMatching(`[0-9]{1,3}`).Draw(t, "digits"))
+	case 4:
+		// tails that are digits beyond the range of an int, signed, or digits of another script
+		sb.WriteString("-" + rapid.SampledFrom([]string{"18446744073709551616", "99999999999999999999", "9223372036854775808", "+8", "-8", "٣", "1٣", "８", "0x8", "8_0", "1e3"}).Draw(t, "oddtail"))
 	}
 	return sb.String()
 }
